@@ -388,6 +388,9 @@ def body_growing_default(E, n, m, which):
         up['growing.full_rank.use_full_rank_interp'] = val
     if which in ('perturb', 'both'):
         up['growing.perturb_trust_region_step'] = (not val) if which == 'both' else val
+    if which == 'none':
+        up['general.check_objfun_for_overflow'] = val        # an unrelated option: the solver picks its growing defaults itself
+    up_copy = dict(up)
     reached = []
 
     class ControllerStub(object):
@@ -406,6 +409,8 @@ def body_growing_default(E, n, m, which):
         kind_out, out = 'proceeded', None
     except Exception as e:     # noqa
         kind_out, out = 'raised', e
+    # C19: whatever the solver decides about its own options once m is known, the caller's dictionary is left as it was
+    E.prove(up == up_copy, 'C19:growing-default:user_params-not-modified')
     # which=='full' with val True and which=='perturb' with val True contradict the other default only when both end up True
     if kind_out == 'raised':
         E.fail('growing-default:raises-' + type(out).__name__ + '[m%sn]' % ('<' if m < n else '>='), detail=str(out)[:200])
@@ -480,7 +485,7 @@ def harnesses(tier, seed):
         hs.append(Harness("contradiction[%d]" % w, 'dfverif.checks.c07', 'body_contra', params=dict(n=1, which=w), cfg=cfg,
                           functions=FUNCS, bounds="both flags symbolic", assumptions=common, nproc=1))
     for (n_, m_) in ((2, 1), (1, 2)):
-        for which in ('full', 'perturb', 'both'):
+        for which in ('full', 'perturb', 'both', 'none'):
             hs.append(Harness("growing-default[n=%d,m=%d,%s]" % (n_, m_, which), 'dfverif.checks.c07', 'body_growing_default',
                               params=dict(n=n_, m=m_, which=which), cfg=core.Cfg(qtimeout_ms=20000, uflin=True), functions=FUNCS,
                               bounds="n=%d, m=%d, the option(s) given with either boolean value" % (n_, m_),
